@@ -242,7 +242,8 @@ def box_dispatch():
 
 def box_steps():
     """order and guards of the post-processing steps: back-end call, imputation loop, sign flip, non-negative step"""
-    NN = [(None, "NNnone"), (False, "NNfalse"), (True, "NNtrue"), ("nndsvd", "NNstr"), ("nndsvda", "NNstr")]
+    # 0 and "" are neither None nor False: the code enters the non_negative step (which then rejects them), like any other string
+    NN = [(None, "NNnone"), (False, "NNfalse"), (True, "NNtrue"), ("nndsvd", "NNstr"), ("nndsvda", "NNstr"), (0, "NNstr"), ("", "NNstr")]
     ents = []
     with _Patch() as p:
         log = []
